@@ -8,18 +8,18 @@ import Gts.Model.Repair
 import Gts.Spec.RepairGuard
 namespace Gts
 
-def encOutcome : Outcome → String
+def encRepairOutcome : RepairOutcome → String
   | .ok t => encList (t.map encFeature)
   | .panic => "PANIC"
   | .nilLoc => "NILLOC"
 
 def evalRepair (op : String) (args : List Sexp) : Option String :=
   match op, args with
-  | "feat.repair", fs => do pure (encOutcome (repair (← fs.mapM decFeature?)))
+  | "feat.repair", fs => do pure (encRepairOutcome (repair (← fs.mapM decFeature?)))
   | "feat.repair.rev", fs => do
       -- the same with the map iterated in the opposite order
       let t ← fs.mapM decFeature?
-      pure (encOutcome (repairOrd t (Table.groups t).reverse))
+      pure (encRepairOutcome (repairOrd t (Table.groups t).reverse))
   | "c12.shape", fs => do
       let t ← fs.mapM decFeature?
       pure (encBool (Table.noTopJoin t) ++ encBool (Table.keysInj t) ++ encBool (Table.plain t))
